@@ -170,3 +170,11 @@ def field_at(I, B, off, size):
     from pyvc.vals import ArrS, IntS, to_int
     name = {1: 'Elf_byte', 2: 'Elf_half', 4: 'Elf_word', 8: 'Elf_word64'}[size]
     return z3.Function(name, ArrS, IntS, IntS)(B.arr, to_int(off))
+
+
+@_native
+def inflated_len(I, b):
+    """length of the whole inflated stream (whatever limit a reader passes)"""
+    from pyvc.calls import inflate_len
+    from pyvc.vals import view_args
+    return inflate_len(*view_args(b))
